@@ -110,6 +110,9 @@ SetMem(s, cid, m) == LET c == s.ctr[cid] IN
    c.seg = 0 means the current operator has not started; (seg, i) is the NEXT tick to run. *)
 Advance(cfg, wl, s, cid, h) ==
   IF s.crash # "" THEN s ELSE
+  \* (total: a live container with no operator left cannot arise from Init; a trace monitor can be put there by an observation
+  \*  that contradicts itself, e.g. two containers under one id, and must then report, not stop)
+  IF s.ctr[cid].idx >= Len(s.ctr[cid].ops) THEN CrashWith(s, "no_operator_left") ELSE
   LET c  == s.ctr[cid]
       o  == c.ops[c.idx + 1]
       s1 == IF c.seg = 0 THEN Trans(wl, s, o, "running") ELSE s
@@ -147,7 +150,7 @@ Kill(wl, s, cid) == KillErr(wl, s, cid, "OOM")
 ExternalKill(cfg, wl, s, cid, err) ==
   IF s.crash # "" THEN s
   ELSE IF ~(\E k \in 1..cfg.np : cid \in Range(s.pools[k].active)) \/ s.ctr[cid].done \/ err = "" THEN CrashWith(s, "kill_invalid")
-  ELSE [KillErr(wl, s, cid, err) EXCEPT !.ctr[cid].can = FALSE]
+  ELSE [KillErr(wl, s, cid, err) EXCEPT !.ctr[cid].can = FALSE]          \* an ended container is not at an operator boundary (D12, fixed)
 
 \* suspension = writing the allocation to disk at 20 GB/s: floor(ram/20 * tps) ticks, at least one (C10)
 SuspTicks(cfg, ram) ==
